@@ -195,6 +195,10 @@ class SimBridge:
         self.running = {}                                 # t -> [w, values, next index]
         self.yielded = set()                              # datasets really handed to a host's store
         self.atomic = rng.random() < 0.25                 # a quarter of the runs: bodies publish everything at once
+        # lazy I/O adversary (a third of the runs): some transfers/fetches are performed only when nothing else can happen
+        # (no runnable body, no other I/O, no undelivered event) — a slow link; exposes commands that outlive their purpose
+        self.lazy_io = rng.random() < 0.33
+        self.starved = set()
         self.max_running = 0
 
     def flag(self, kind, detail):
@@ -237,6 +241,10 @@ class SimBridge:
         if d not in self.present[s]:
             self.flag("C04 transmit-from-missing", [d, s])
         self.outstanding.append(("transmit", d, s, g, self.idx))
+        dup = any(o[0] == "transmit" and o[1] == d and o[3] == g for o in self.outstanding[:-1])
+        if dup or (self.lazy_io and self.rng.random() < 0.4):
+            # a second transfer of the same dataset to the same host is redundant: the adversary always lets it linger
+            self.starved.add(self.idx)
         self.idx += 1
 
     def fetch(self, ds, src):
@@ -246,6 +254,8 @@ class SimBridge:
         if d not in self.present[s]:
             self.flag("C04 fetch-from-missing", [d, s])
         self.outstanding.append(("fetch", d, s, None, self.idx))
+        if self.lazy_io and self.rng.random() < 0.25:
+            self.starved.add(self.idx)
         self.idx += 1
 
     def purge(self, host, ds):
@@ -278,8 +288,11 @@ class SimBridge:
                 acts.append(("run", w, t))
         for t in self.running:
             acts.append(("yield", t))
+        late = []
         for o in self.outstanding:
-            acts.append(("io", o))
+            (late if o[4] in self.starved else acts).append(("io", o))
+        if not acts and not self.pending:
+            acts = late
         return acts
 
     def do_yield(self, t):
